@@ -656,7 +656,14 @@ func invalidIdentity(rt *rapid.T) (op, id string) {
 	case "missing-O":
 		text = render([]pki.AV{avs[0], avs[1], avs[3]}, drawRender(rt, 3, "r"))
 	case "duplicate":
-		text = render(append(avs, pki.AV{T: rp.Pick(rt, "dup", "C", "ST", "O", "CN"), V: "zz"}), drawRender(rt, 5, "r"))
+		// any attribute type twice, in separate RDNs - also types that real subjects do repeat (OU, DC):
+		// an identity that says two things about one attribute cannot be interpreted
+		t := rp.Pick(rt, "dup", "C", "ST", "O", "CN", "OU", "OU", "DC", "L", "STREET")
+		all := append([]pki.AV{}, avs...)
+		if t == "OU" || t == "DC" || t == "L" || t == "STREET" {
+			all = append(all, pki.AV{T: t, V: drawValue(rt, "dupFirst", false)})
+		}
+		text = render(append(all, pki.AV{T: t, V: "zz"}), drawRender(rt, len(all)+1, "r"))
 	case "multivalued":
 		text = render(avs[:3], drawRender(rt, 3, "r")) + "+CN=joined"
 	case "eqhash":
